@@ -536,6 +536,7 @@ def toPES(radial, intensity, energy_cal_factor, per_energy_scaling=True,
     # Jacobian, we find dE/dr = 2c2r. Since the coordinates are getting
     # stretched at high E and "squished" at low E, we know that we need to
     # divide by this factor.
+    intensity = np.array(intensity, dtype=float)  # (a copy)
     intensity[1:] /= (2 * radial[1:])  # 1: to exclude R = 0
     if per_energy_scaling:
         # intensity per unit energy
